@@ -59,6 +59,12 @@ inductive Res
   | ub                   -- the call touched the dead arm of the union
   deriving DecidableEq, Repr
 
+/-- `get_or_init(f)` (the infallible entry point; its initialiser can succeed or panic, not fail).
+By the extracted fact `getOrInitForwards` it is `get_or_try_init` with the same initialiser wrapped in
+`Ok`; if the source ever gives it a code path of its own the model has nothing to say about it. -/
+def Call.infallible (o : Outcome) : Option Call :=
+  if getOrInitForwards ∧ o.kind ≠ .err then some (.init o) else none
+
 structure Sh where
   kind : Kind
   once : Once
